@@ -36,6 +36,9 @@ def p_c11(run):
 def p_c12(run):
     ck = _imports()
     ck.kernel_tie(run, ("native", "w32", "neutral", "neutral32"), ck.ALL_PARTS)
+    import whole as W
+    q = run.tier == "quick"
+    ck.whole_tie(run, ("native", "w32", "noua", "neutral", "neutral32"), (W.QUICK_BLK + W.QUICK_MBLK[:2]) if q else (W.BLK_PARTS + W.MBLK_PARTS))
     scripts = G.gen_mix(run.rng, run.tier)
     cfgs = list(C.CONFIGS)
     builds = [(c, "gcc", "-O2") for c in cfgs]
